@@ -113,6 +113,11 @@ def replay_failure(failure):
         notes.append(f"{profile}: {'reproduced' if hit else 'not reproduced'}")
         ok_any = ok_any or hit
     failure.replayed = ok_any
+    if not ok_any and getattr(mod, "REPLAY_INCONCLUSIVE_WHEN_NOT_REPRODUCED", {}).get(cex["func"]):
+        # the native harness cannot control everything the model varies (e.g. Instant::now()): a run that does
+        # not deviate says nothing about the counterexample
+        failure.replayed = None
+        notes.append("native harness cannot realise the model's clock values: not replayable")
     failure.replay_note = f"{what}; " + "; ".join(notes)
     path = os.path.join(BUILD, "cex", "scripts", re.sub(r"\W+", "_", failure.role)[:80] + ".replay")
     os.makedirs(os.path.dirname(path), exist_ok=True)
